@@ -1690,6 +1690,13 @@ func (fr *frame) runInvariantLoop(l *loop, spec *contract.LoopSpec, iter []int) 
 				iv := r.scalarOf(v, p.Type())
 				r.assume(hdr.alive, c.And(r.sle(r.isub(r.idxConst(0), r.idxConst(1)), iv), r.slt(iv, lenT)))
 			}
+		} else if p == inductionPhi(l) {
+			// the same loop written with a counter: i = phi(0, i+1); i < len(x) ? body : exit, x defined
+			// outside the loop, so 0 <= i <= len(x) at the head by construction
+			if lenT := r.inductionBound(fr, hdr, l, p); lenT != nil {
+				iv := r.scalarOf(v, p.Type())
+				r.assume(hdr.alive, c.And(r.sle(r.idxConst(0), iv), r.sle(iv, lenT)))
+			}
 		}
 	}
 	en := fr.loopEnv(l, hdr, pkg)
@@ -1939,6 +1946,25 @@ func (fr *frame) loopEnv(l *loop, at *node, pkg *pkgRef) *env {
 			}
 		}
 		if v == nil {
+			// the same loop written the other way round (`for i := 0; i < len(x); i++` against
+			// `for i := range x`) keeps its invariants: at the head of an index loop the hidden range index
+			// is i-1, at the head of a range loop the key variable of the coming iteration is rangeindex+1
+			if name == "rangeindex" {
+				if p := inductionPhi(l); p != nil {
+					if x, ok := at.lookup(p).(Scalar); ok {
+						return TV{V: Scalar{T: r.isub(x.T, r.idxConst(1))}, T: p.Type()}, true
+					}
+				}
+			} else if p := rangeKeyPhi(fr.r.E, fr.fn, l, name); p != nil {
+				if x, ok := at.lookup(p).(Scalar); ok {
+					return TV{V: Scalar{T: r.iadd(x.T, r.idxConst(1))}, T: p.Type()}, true
+				}
+			} else if p := fr.r.E.renamedPhi(fr.fn, l, name); p != nil {
+				// a renamed loop variable (loopnames.go)
+				if x := at.lookup(p); x != nil {
+					return TV{V: x, T: p.Type()}, true
+				}
+			}
 			return TV{}, false
 		}
 		x := at.lookup(v)
@@ -1948,6 +1974,119 @@ func (fr *frame) loopEnv(l *loop, at *node, pkg *pkgRef) *env {
 		return TV{V: x, T: v.Type()}, true
 	}
 	return en
+}
+
+// inductionPhi: the unique phi of type int at the head of l that enters the loop as 0 and is incremented by 1
+// on every back edge (the counter of `for i := 0; ...; i++`); nil when there is none or more than one.
+func inductionPhi(l *loop) *ssa.Phi {
+	var found *ssa.Phi
+	for _, in := range l.header.Instrs {
+		p, ok := in.(*ssa.Phi)
+		if !ok {
+			break
+		}
+		if b, ok := p.Type().(*types.Basic); !ok || b.Kind() != types.Int {
+			continue
+		}
+		good := len(p.Edges) == len(l.header.Preds)
+		for i := 0; good && i < len(p.Edges); i++ {
+			if l.blocks[l.header.Preds[i]] {
+				bo, ok := p.Edges[i].(*ssa.BinOp)
+				good = ok && bo.Op == token.ADD && bo.X == ssa.Value(p) && isIntConst(bo.Y, 1)
+			} else {
+				good = isIntConst(p.Edges[i], 0)
+			}
+		}
+		if good {
+			if found != nil {
+				return nil
+			}
+			found = p
+		}
+	}
+	return found
+}
+
+// inductionBound: for the counter p of `for i := 0; i < len(x); i++` (or i < n) with x (n) defined outside
+// the loop and the false branch of the head leaving the loop: the term of the bound; nil otherwise.
+func (r *run) inductionBound(fr *frame, hdr *node, l *loop, p *ssa.Phi) *smt.Term {
+	if len(l.header.Instrs) == 0 || len(l.header.Succs) != 2 || !l.blocks[l.header.Succs[0]] || l.blocks[l.header.Succs[1]] {
+		return nil
+	}
+	br, ok := l.header.Instrs[len(l.header.Instrs)-1].(*ssa.If)
+	if !ok {
+		return nil
+	}
+	cond, ok := br.Cond.(*ssa.BinOp)
+	if !ok || cond.Op != token.LSS || cond.X != ssa.Value(p) {
+		return nil
+	}
+	outside := func(v ssa.Value) bool {
+		switch x := v.(type) {
+		case *ssa.Const, *ssa.Parameter:
+			return true
+		case ssa.Instruction:
+			return x.Block() != nil && !l.blocks[x.Block()]
+		}
+		return false
+	}
+	if bt, isBasic := cond.Y.Type().(*types.Basic); !isBasic || bt.Kind() != types.Int {
+		return nil
+	}
+	if outside(cond.Y) {
+		if v := hdr.val(cond.Y); v != nil {
+			// a negative bound leaves the counter at 0
+			n := r.scalarOf(v, cond.Y.Type())
+			return r.C().Ite(r.sle(r.idxConst(0), n), n, r.idxConst(0))
+		}
+		return nil
+	}
+	call, ok := cond.Y.(*ssa.Call)
+	if !ok || call.Block() != l.header || len(call.Call.Args) != 1 {
+		return nil
+	}
+	b, ok := call.Call.Value.(*ssa.Builtin)
+	if !ok || b.Name() != "len" || !outside(call.Call.Args[0]) {
+		return nil
+	}
+	switch call.Call.Args[0].Type().Underlying().(type) {
+	case *types.Slice, *types.Basic:
+	default:
+		return nil
+	}
+	x := hdr.val(call.Call.Args[0])
+	if x == nil {
+		return nil
+	}
+	if s, ok := r.builtin(fr, hdr, call, b, []Value{x}).(Scalar); ok {
+		return s.T
+	}
+	return nil
+}
+
+func isIntConst(v ssa.Value, want int64) bool {
+	c, ok := v.(*ssa.Const)
+	if !ok || c.Value == nil || c.Value.Kind() != constant.Int {
+		return false
+	}
+	x, exact := constant.Int64Val(c.Value)
+	return exact && x == want
+}
+
+// rangeKeyPhi: when name is the key variable of the range loop l (go/ssa: k = rangeindex + 1 in the header
+// block), the hidden rangeindex phi; nil otherwise.
+func rangeKeyPhi(e *Engine, fn *ssa.Function, l *loop, name string) *ssa.Phi {
+	e.namedValueAt(fn, name, l.header) // fills e.debugNames[fn]
+	for _, v := range e.debugNames[fn][name] {
+		bo, ok := v.(*ssa.BinOp)
+		if !ok || bo.Block() != l.header || bo.Op != token.ADD || !isIntConst(bo.Y, 1) {
+			continue
+		}
+		if p, ok := bo.X.(*ssa.Phi); ok && p.Block() == l.header && p.Comment == "rangeindex" {
+			return p
+		}
+	}
+	return nil
 }
 
 // loopEnvAt: expression environment at an arbitrary point of the function (parameters; local variables by
